@@ -434,6 +434,19 @@ def _txid_edit_path(field):
     ins, outs, wits = _mk_fields(2, 2, True, (1, 2), ((1,), (0, 2)))
     tx = _build_tx(txm, scm, wim, version, ins, outs, locktime, True, wits)
     before = tx.serialize_legacy()
+    # history: the id was asked for (and shown) before the edit, on the same object
+    id0 = tx.hash()
+    tx.id()
+    check(id0 == H().hash256(before)[::-1], "txid before the edit", witness=lambda env: {"field": "none"})
+
+    def wit(env):
+        nvv = conc_value(nv, env)
+        return {"field": field, "new": nvv.hex() if isinstance(nvv, (bytes, bytearray)) else nvv,
+                "version": env["version"], "locktime": env["locktime"], "segwit": True,
+                "ins": [[conc_value(p, env).hex(), conc_value(i, env), [c if isinstance(c, int) else conc_value(c, env).hex() for c in cm],
+                         conc_value(s_, env)] for (p, i, cm, s_) in ins],
+                "outs": [[conc_value(a, env), [c if isinstance(c, int) else conc_value(c, env).hex() for c in cm]] for (a, cm) in outs],
+                "wits": [[conc_value(x, env).hex() for x in w] for w in wits]}
     if field == "version":
         nv = SI.var("new", 0, (1 << 32) - 1)
         assume(nv != version)
@@ -463,8 +476,10 @@ def _txid_edit_path(field):
         assume(nv != outs[0][1][1])
         tx.tx_outs[0].script_pubkey = scm.Script([0x76, nv])
     after = tx.serialize_legacy()
-    check((len(before) != len(after)) or (before != after), f"hashed bytes unchanged after editing {field}",
-          witness=lambda env: {"field": field})
+    check((len(before) != len(after)) or (before != after), f"hashed bytes unchanged after editing {field}", witness=wit)
+    check(tx.hash() == H().hash256(after)[::-1], f"txid asked for again after editing {field} on the same object is not the hash of its current "
+          "witness-stripped bytes", witness=wit)
+    check(tx.id() == tx.hash().hex(), "id() is not the hex of hash() after an edit", witness=wit)
     return "ok"
 
 
@@ -476,7 +491,100 @@ def ob_txid_edits():
 
 
 def replay_txid_edit(w):
-    return {"violated": False, "observed": "structural obligation; no concrete replay recipe"}
+    if "ins" not in w:
+        return {"violated": False, "observed": "structural obligation; no concrete replay recipe"}
+    from buidl import helper, script as scm, timelock
+    tx = _real_tx_from_witness(w)
+    before = tx.serialize_legacy()
+    id0, shown = tx.id(), repr(tx)
+    f, nv = w["field"], w["new"]
+    if f == "version":
+        tx.version = nv
+    elif f == "locktime":
+        tx.locktime = timelock.Locktime(nv)
+    elif f == "amount":
+        tx.tx_outs[1].amount = nv
+    elif f == "sequence":
+        tx.tx_ins[0].sequence = timelock.Sequence(nv)
+    elif f == "prev_index":
+        tx.tx_ins[1].prev_index = nv
+    elif f == "prev_tx":
+        tx.tx_ins[0].prev_tx = bytes.fromhex(nv)
+    elif f == "script":
+        tx.tx_outs[0].script_pubkey = scm.Script([0x76, bytes.fromhex(nv)])
+    after = tx.serialize_legacy()
+    want = helper.hash256(after)[::-1].hex()
+    bad = after == before or tx.id() != want or tx.hash().hex() != want
+    return {"violated": bool(bad), "observed": f"segwit tx whose id() was {id0}; after setting {f} = {nv!r} the witness-stripped bytes "
+                                               f"{'changed' if after != before else 'did not change'}, id() = {tx.id()}, hash256 of the current bytes = {want}"}
+
+
+# ---- O3b: outputs shaped like the standard templates (ScriptPubKey.parse re-types these on the way in)
+
+TEMPLATES = {
+    "op,push32": ("o", 32),                 # p2wsh / p2tr / future witness versions
+    "op,push20": ("o", 20),                 # p2wpkh
+    "op,push2..40": ("o", None),            # other witness program lengths
+    "op,op,push20,op,op": ("o", "o", 20, "o", "o"),   # p2pkh
+    "op,push20,op": ("o", 20, "o"),         # p2sh
+}
+
+
+def _template_path(shape, plen):
+    """a 1-in 1-out transaction (legacy wire form) whose output script is <opcode(s)> around one push, every opcode an arbitrary
+    non-push byte (0x00 or 0x4f..0xff) and the payload arbitrary: parse -> serialize must give the bytes back and the id must be
+    their hash"""
+    txm = loader.load("tx")
+    items = []
+    k = 0
+    for part in TEMPLATES[shape]:
+        if part == "o":
+            o = SI.var(f"op{k}", 0, 0xFF)
+            assume(s_or(o == 0, o >= 0x4F))
+            items.append(o)
+            k += 1
+        else:
+            n = part if part is not None else plen
+            items.append(n)
+            items += SBytes.sym("payload", n).items
+    script = SBytes(items)
+    amt = SBytes.sym("amt", 8)
+    raw = (b"\x01\x00\x00\x00" + b"\x01" + b"\x11" * 32 + b"\x00\x00\x00\x00" + b"\x00" + b"\xfe\xff\xff\xff"
+           + b"\x01" + amt + bytes([len(script)]) + script + b"\x00\x00\x00\x00")
+    wit = lambda env: {"raw": conc_value(raw, env).hex()}  # noqa
+    try:
+        tx = txm.Tx.parse(shims.BytesIOShim(raw))
+    except Exception as ex:
+        check(False, f"Tx.parse raised {type(ex).__name__} on a well-formed transaction", witness=wit)
+        return "parse-error"
+    out = tx.serialize()
+    check((len(out) == len(raw)) and (out == raw), "serialize(parse(raw)) != raw for an output shaped like a standard template", witness=wit)
+    sp = tx.tx_outs[0].script_pubkey.raw_serialize()
+    check((len(sp) == len(script)) and (sp == script), "the parsed output script is not the script on the wire", witness=wit)
+    check(tx.hash() == H().hash256(raw)[::-1], "txid is not the hash of the bytes parsed", witness=wit)
+    return type(tx.tx_outs[0].script_pubkey).__name__
+
+
+def ob_templates(shape, plens=(None,)):
+    runs = [sym_run(lambda: _template_path(shape, pl), max_violations=12) for pl in plens]
+    m = merge_runs(runs)
+    m["sample"] = {"shape": shape, "opcodes": "0x00 or 0x4f..0xff, symbolic", "payload": "symbolic", "classes": m["classes"]}
+    return m
+
+
+def replay_template(w):
+    from buidl import tx as txm, helper
+    from io import BytesIO
+    raw = bytes.fromhex(w["raw"])
+    try:
+        tx = txm.Tx.parse(BytesIO(raw))
+    except Exception as ex:
+        return {"violated": True, "observed": f"Tx.parse({raw.hex()}) raised {ex!r}"}
+    out = tx.serialize()
+    want = helper.hash256(raw)[::-1].hex()
+    return {"violated": out != raw or tx.id() != want,
+            "observed": f"raw {raw.hex()} -> parse -> serialize {'identical' if out == raw else out.hex()}; output script parsed as "
+                        f"{type(tx.tx_outs[0].script_pubkey).__name__}; id() {'ok' if tx.id() == want else 'is not the hash of the raw bytes'}"}
 
 
 # ---- O4 witness codec
@@ -661,6 +769,11 @@ def obligations(tier):
     obs.append(Ob("O4-witness", ob_witness, {"lenset": (0, 1, 252, 253) if q else (0, 1, 252, 253, 65535, 65536, 70000), "maxitems": 3 if q else 2},
                   replay="witness", budget_s=1500))
     obs.append(Ob("O5-txid-edits", ob_txid_edits, replay="txid_edit"))
+    for shape in TEMPLATES:
+        plens = (None,)
+        if shape == "op,push2..40":
+            plens = (2, 21, 33, 40) if q else (2, 3, 19, 21, 31, 33, 40, 41)
+        obs.append(Ob("O3-output-templates", ob_templates, {"shape": shape, "plens": plens}, replay="template"))
     for kind in ("legacy", "segwit"):
         obs.append(Ob("O6-fetcher", ob_fetcher, {"kind": kind, "maxscript": 3 if q else 4}, replay="fetch", budget_s=1500))
     return obs
